@@ -51,7 +51,7 @@ LEVEL = "proof"
 TRUSTED = [
     "Coq 8.16.1 kernel and its VM (vm_compute for closed facts over the generated tables and for the refutation witnesses)",
     "axioms: none (every theorem of Props/C17.v prints 'Closed under the global context')",
-    "tools/gen_tables.py + tools/tables/t17_python.py (Python-ast translator of SAFE_MODULES, DANGEROUS_*, REFLECTION_ATTRS, ESCAPE_ATTRS, _KNOWN_OPTIONS, _INFO_OPTIONS, _SHORT_WITH_ARG, the list of visit_ methods; asserts the literal tests of _scan_options / classify that the model writes out by hand)",
+    "tools/gen_tables.py + tools/tables/t17_python.py (Python-ast translator of SAFE_MODULES, DANGEROUS_*, REFLECTION_ATTRS, ESCAPE_ATTRS, _KNOWN_OPTIONS, _INFO_OPTIONS, _SHORT_WITH_ARG, the list of visit_ methods; asserts the literal tests of _scan_options / classify / local_shadow / _writes_files_xoption that the model writes out by hand; _IMPORTABLE_ENDINGS, sys.stdlib_module_names)",
     "extraction: ExtrOcamlBasic only; OCaml 4.13.1; ocaml/driver.ml; cross-checked in Coq by vm_compute on a sample",
     "harness: reflective dumper of Python's ast (harness/c17.py dump: class name, _fields order, str fields, node / list-of-node fields), script generator harness/pygen.py, audit child harness/c17_child.py",
     "the visitor's _called_names set is modelled as one bit of context (the node is the Name in the func field of the Call directly above): exact for tree-shaped ASTs without shared node objects (ast.parse output)",
@@ -59,6 +59,7 @@ TRUSTED = [
     "modelled, not verified: ast.parse supplies the tree; Path.resolve, the calendar.py/calendar shadow test, the sibling test and analyze_python_file's file checks (exists / is_file / suffix / size / read_bytes) are oracles answered by the real code; reason texts and descriptions are not modelled",
     "specification py_cmdline = CPython 3.12 argv grammar (Python/getopt.c, config_parse_cmdline), validated against /venv/bin/python on generated argv (coverage.cmdline_spec_vs_cpython); -W/-X values are not validated by the spec",
     "environment stream: ground truth is bash 5 + /venv/bin/python run in a private jail per case (HOME, PATH and LANG set, nothing else); an effect is a change of the jail's tree (path set, file type, size) - writes outside the jail (e.g. /tmp/perf-PID.map of -X perf) are not seen; the modules an inert script loads are discovered with -X importtime on this interpreter only",
+    "local_shadow (repair 7bd370f) is modelled over the listing of the modelled file system; sys.stdlib_module_names is a generated table taken from the interpreter that runs tools/gen_tables.py (/venv/bin/python 3.12, the one the harness imports dippy with); the name.isidentifier() test is dropped because the plugin checks that every listed name passes it; the fallback for interpreters without stdlib_module_names (< 3.10) is not modelled (the tie breaks there)",
     "file-system model (Model/PyEnv.v): association list over symlink-free absolute paths as serialised by harness/c17_env.py fs_of_jail (lstat walk of the jail + its ancestor directories, ast.parse of every regular file); permissions, unreadable files, hard-link identity, `//` as a distinct root and chains of more than 3000 path steps are not modelled; a symlink loop is 'resolve raises' as soon as it is met (Python returns the loop link + the unread rest, normalised, and raises only if that still loops): tokens continuing after a looping component are left to the model-free oracles (counted in coverage.environment.model_correspondence)",
     "specification py_syspath0 = CPython 3.12 pymain_run_python / _PyPathConfig_ComputeSysPath0 (directory of the real path of the script; the script itself when it is a directory; the cwd for -m), validated against sys.path[0] printed by /venv/bin/python on every access path of the stream",
     "runtime inertness is NOT proved (no Gallina model of CPython): it is decided by execution under an audit hook for the generated scripts only; events raised while a library module initialises itself during import are not attributed to the script (counted in coverage.inertness.import_time_events)",
@@ -436,13 +437,16 @@ def make_work(root, name, swapped=False):
 
 
 CORE_TOKENS = ["-B", "-u", "-i", "-x", "-c", "-m", "-h", "--help", "-V", "--version", "-W", "-X", "-", "--",
-               "s.py", "evil.py", "calendar", "ignore", "-Bi", "-Bc", CODE_TOKEN]
+               "s.py", "evil.py", "calendar", "ignore", "-Bi", "-Bc", CODE_TOKEN, "perf", "-Xperf", "~/s.py"]
 MORE_TOKENS = ["-VV", "-?", "-O", "-OO", "-bb", "-E", "-I", "-s", "-S", "-q", "-d", "-v", "-P", "-R", "-t", "-J", "-Z",
                "--bogus", "--help-all", "--help-env", "--check-hash-based-pycs", "always", "--check-hash-based-pycs=always",
                "-Wignore", "-Xdev", "dev", "-qi", "-ic", "-ix", "-Bx", "-xB", "-Bm", "-mcalendar", "-mmymod", "mymod",
                "-c" + CODE_TOKEN, "-B-", "-hZ", "-Zh", "-Vx", "-iV", "./s.py", "sub/../s.py", "sub/t.py", "sub/evil.py",
                "link.py", "slink.py", "noext", "x.pyw", "dir.py", "big.py", "latin.py", "u7.py", "xskip.py", "nonexistent.py",
-               CODE_FILE_TOKEN, "", "-W-h", "-X-c", "=", "-a=b", "s.py=1"]
+               CODE_FILE_TOKEN, "", "-W-h", "-X-c", "=", "-a=b", "s.py=1",
+               # repairs 6fb4634 / 1872043: -X values that write files, script words bash rewrites
+               "pycache_prefix=cache", "-Xpycache_prefix=cache", "-Xperf", "perf", "-BXperf", "-Xpycache_prefix", "pycache_prefi", "-XXperf", "perfect",
+               "-Xdev", "~/s.py", "~", "$HOME/s.py", "s.p[y]", "{s,evil}.py", "s.p?", "*.py", "`s.py`", "s~.py", "s.py~"]
 
 
 def gen_token_lists(rng, tier, work):
@@ -653,7 +657,8 @@ def run(tier, seed, replay=None):
                     sib = lambda r: (r + ".py") in names or r in names   # noqa: E731
                     d0 = scratch.script_dir(s)
                     isrc = [(v.kind, v.detail) for v in H.analyze_python_source(src_bytes, True, Path(d0))]
-                    msrc = model.call(["py_source", True, dump(tree)], {"py_sibling": sib})
+                    msrc = model.call(["py_source", True, dump(tree)],
+                                      {"py_sibling": sib, "py_local_shadow": lambda d0=d0: H.local_shadow(Path(d0)) is not None})
                     if msrc is not None and not compare_visit(msrc, isrc, None):
                         out.disagreements.append({"correspondence": "PyArgs.source_viols <-> analyze_python_source(base=...)",
                                                   "script": s.text, "siblings": [n for n, _ in s.siblings], "model": msrc, "impl": isrc})
@@ -799,7 +804,8 @@ def run(tier, seed, replay=None):
             except (ValueError, OSError, RuntimeError):   # NUL byte; symlink loop (RuntimeError from Path.resolve)
                 return []
         oracles = {"py_resolve": res, "py_analyze": lambda p: H.analyze_python_file(Path(p))[0],
-                   "py_shadow": lambda c: (Path(c) / "calendar.py").exists() or (Path(c) / "calendar").is_dir()}
+                   "py_shadow": lambda c: ((Path(c) / "calendar.py").exists() or (Path(c) / "calendar").is_dir()
+                                           or H.local_shadow(Path(c)) is not None)}
         if replay and replay.get("tokens") is not None:
             tls = [(replay["tokens"], "replay")]
         elif replay:
@@ -860,6 +866,36 @@ def run(tier, seed, replay=None):
                 if not want_real:
                     spec_budget -= 1
                 real_jobs.append((toks, decision, want_real))
+
+        # (1b') the two pure helpers of the repairs, exhaustively over small alphabets taken from their own literals
+        n_wfx = n_rw = 0
+        if model.available and not replay and hasattr(H, "_writes_files_xoption"):
+            import itertools
+            walpha = ["-X", "-Xperf", "-BXpycache_prefix=c", "-Xdev", "perf", "pycache_prefix", "per", "--X", "X", "-B", "s.py", "-", ""]
+            for k in range(0, 4 if tier == "quick" else 5):
+                for ws in itertools.product(walpha, repeat=k):
+                    toks_ = ["python3"] + list(ws)
+                    for end in range(1, len(toks_) + 2):
+                        iw = bool(H._writes_files_xoption(toks_, end))
+                        mw = model.call(["py_wfx", "1" * (end - 1), toks_[1:]])
+                        n_wfx += 1
+                        if (mw == "1") != iw:
+                            out.disagreements.append({"correspondence": "PyArgs.wfx <-> _writes_files_xoption", "tokens": toks_, "end": end, "model": mw, "impl": iw})
+            ralpha = ["~", "$", "`", "{", "*", "?", "[", "s", "/", ".", "}", "]", "-"]
+            for k in range(0, 4 if tier == "quick" else 5):
+                for cs in itertools.product(ralpha, repeat=k):
+                    w_ = "".join(cs)
+                    ir = w_.startswith("~") or any(c in w_ for c in "$`{*?[")
+                    n_rw += 1
+                    mr = model.call(["py_shell_rewrites", w_])
+                    if (mr == "1") != ir:
+                        out.disagreements.append({"correspondence": "PyArgs.shell_rewrites <-> the literal test of classify", "word": w_, "model": mr, "impl": ir})
+                    # and the handler itself: a word the test flags is never approved as a script
+                    if ir and w_ and not w_.startswith("-"):
+                        if H.classify(HandlerContext(["python3", w_], cwd=Path(work))).action == "allow":
+                            out.violations.append({"kind": "cmdline", "what": f"script word bash rewrites is approved: {w_!r}", "tokens": ["python3", w_],
+                                                   "signature_text": "cmdline: rewritten word approved " + w_})
+        out.extra["helper_streams"] = {"wfx": n_wfx, "shell_rewrites": n_rw}
 
         # real executions are sequential per work directory: use a few copies of it in parallel
         workers = 6
